@@ -390,7 +390,7 @@ class Reporter:
                 listed.append((f, known_keys[f.key()]))
             else:
                 unlisted.append(f)
-        outdir = os.path.join(VERIF, 'out')
+        outdir = os.environ.get('VERIF_OUT_DIR') or os.path.join(VERIF, 'out')
         os.makedirs(outdir, exist_ok=True)
         for f, k in listed:
             print('KNOWN-FINDING: property=%s rule=%s %s :: %s' % (f.prop, f.rule, f.func, k.get('what', f.message)))
@@ -444,7 +444,7 @@ class Reporter:
             'wall_s': round(time.time() - self.t0, 3),
             'violations': len(unlisted),
         }
-        evdir = os.path.join(VERIF, 'evidence')
+        evdir = os.environ.get('VERIF_EVIDENCE_DIR') or os.path.join(VERIF, 'evidence')
         os.makedirs(evdir, exist_ok=True)
         with open(os.path.join(evdir, '%s.json' % self.prop), 'w') as fh:
             json.dump(ev, fh, indent=1, sort_keys=True)
